@@ -82,7 +82,53 @@ def derive_observers(prog: Program) -> None:
                 changed = True
 
 
+GATED_TEXTS: Set[str] = set()
+
+
+def derive_gated(prog: Program) -> None:
+    """locals that are non-None only under an observer condition (`rec = Recorder(..) if collect_path else None`, or `rec = None`
+    followed by a construction under `if collect_path:`): `rec is not None` then IS an observer condition.  The names and the
+    texts their values resolve to are recorded for observer_fact."""
+    GATED_TEXTS.clear()
+    for fi in prog.iter_functions():
+        if not prog.in_scope(fi):
+            continue
+        tests = [n for n in own_nodes(fi.node) if isinstance(n, ast.Compare) and len(n.ops) == 1 and isinstance(n.ops[0], (ast.Is, ast.IsNot)) and isinstance(n.left, ast.Name)
+                 and isinstance(n.comparators[0], ast.Constant) and n.comparators[0].value is None]
+        if not tests:
+            continue
+        ff = facts_for(fi)
+        for v in {t.left.id for t in tests}:
+            if v in fi.params:
+                continue
+            stores = [q for q in ff.order if isinstance(q.stmt, (ast.Assign, ast.AnnAssign)) and getattr(q.stmt, "value", None) is not None
+                      and any(isinstance(t, ast.Name) and t.id == v for t in (q.stmt.targets if isinstance(q.stmt, ast.Assign) else [q.stmt.target]))]
+            live = [q for q in stores if not (isinstance(q.stmt.value, ast.Constant) and q.stmt.value.value is None)]
+            if not live or len(live) == len(stores) and not all(isinstance(q.stmt.value, ast.IfExp) for q in live):
+                continue
+
+            def gated(q):
+                if any(_observer_fact0(f) for f in q.facts):
+                    return True
+                val = q.stmt.value
+                return isinstance(val, ast.IfExp) and isinstance(val.orelse, ast.Constant) and val.orelse.value is None \
+                    and any(_observer_fact0(f) for f in atoms_of(ff.resolved(q.stmt, val.test), True))
+            if all(gated(q) for q in live):
+                GATED_TEXTS.add(v)
+                for q in ff.order:
+                    e = q.env.get(v)
+                    if e is not None:
+                        GATED_TEXTS.add(U(e))
+
+
 def observer_fact(f) -> bool:
+    op, l, r = f
+    if op == "isnot" and r == "None" and l in GATED_TEXTS:
+        return True
+    return _observer_fact0(f)
+
+
+def _observer_fact0(f) -> bool:
     op, l, r = f
     if op == "truthy":
         if l in ("display", "display_iterate") or l.endswith(".should_display()") or l.endswith("params.report_rcond") or l.endswith("params.collect_path") or l == "self.display":
@@ -135,6 +181,7 @@ def run(prog: Program, rep, tier: str) -> None:
     # math-domain errors (math.pow / math.log / math.sqrt ...) are modelled as raise sites inside observer-only code: a
     # display-only computation must not be able to abort the solve through them either (exhibited: math.pow(0, -0.5) for an
     # empty reduced system under report_rcond, fixed in 9ba1357)
+    derive_gated(prog)
     derive_observers(prog)
     if DERIVED_OBSERVERS:
         rep.note(f"helpers called from observer code only, treated as observer code: {sorted(DERIVED_OBSERVERS)}")
